@@ -1,9 +1,9 @@
 package props
 
 import (
-	"encoding/base64"
 	"bufio"
 	"bytes"
+	"encoding/base64"
 	"encoding/json"
 	"errors"
 	"fmt"
